@@ -17,7 +17,7 @@ impl CrashCheck {
     }
 
     fn explore(&self, case: &Case, env: &Env, only: Option<(usize, usize, usize)>) -> CaseOut {
-        let mk = |fault| HistOpts { focus: "C07", known: &env.known, fault, extra_rounds: 3 };
+        let mk = |fault| HistOpts { focus: "C07", known: &env.known, fault, extra_rounds: 3, forced: None };
         let mut out = CaseOut::default();
         let mut classes = std::collections::BTreeSet::new();
         let points: Vec<(usize, usize, Option<usize>)>;
